@@ -127,7 +127,7 @@ PROPS = {
         "assumptions": ["argument and parameter names are meaningful (crossed-names detector: fires only on a crossing, never on merely different names)"],
     },
     "C20": {
-        "rules": [("CLI-2", cli.cli2), ("CLI-3", cli.cli3), ("CLI-5", cli.cli5), ("CLI-8", r5.cli8)],
+        "rules": [("CLI-2", cli.cli2), ("CLI-3", cli.cli3), ("CLI-5", cli.cli5), ("CLI-8", r5.cli8), ("CLI-11", r5.cli11)],
         "explanation": "Decides the cycle, filter and stage-order clauses of C20: Parser::parse returns Ok only after top-level loops that check every `%tag` reference "
                        "for existence and for cycles (detector inserts each visited tag in a set and returns on a repeat), every config slice given to the five "
                        "functions that follow `from` recursively comes from get_config = Parser::parse, and ASCAConfig literals with a reference are built only in "
